@@ -1775,3 +1775,69 @@ pub fn extract(file: &syn::File) -> (Value, Vec<String>) {
     });
     (facts, std::mem::take(&mut cx.warnings))
 }
+
+#[cfg(test)]
+mod tests {
+    use super::*;
+    use quote::quote;
+
+    fn cfg_item(ts: TokenStream) -> (Vec<String>, Vec<String>) {
+        let it: syn::ItemStruct = syn::parse2(ts).unwrap();
+        cfg_of(&it.attrs)
+    }
+
+    #[test]
+    fn cfg_flattening() {
+        let (c, r) = cfg_item(quote! { #[cfg(all(a, all(feature = "x y", not(z)), any(p, all(q, r))))] #[doc = "d"] #[cfg(b)] struct S; });
+        assert_eq!(c, vec!["a", "any(p,all(q,r))", "b", "feature=\"xy\"", "not(z)"]);
+        assert_eq!(r, vec!["all(a,all(feature=\"xy\",not(z)),any(p,all(q,r)))", "b"]);
+        let (c, _) = cfg_item(quote! { #[cfg(all())] struct S; });
+        assert!(c.is_empty());
+        let (c, _) = cfg_item(quote! { #[cfg(all(a, a,),)] struct S; });
+        assert_eq!(c, vec!["a", "a"]);
+        let (c, r) = cfg_item(quote! { struct S; });
+        assert!(c.is_empty() && r.is_empty());
+    }
+
+    #[test]
+    fn integers() {
+        let e = |ts: TokenStream| expr_int(&syn::parse2::<Expr>(ts).unwrap());
+        assert_eq!(e(quote! { 3 }).as_deref(), Some("3"));
+        assert_eq!(e(quote! { -3 }).as_deref(), Some("-3"));
+        assert_eq!(e(quote! { (-(0x10u8)) }).as_deref(), Some("-16"));
+        assert_eq!(e(quote! { - -3 }).as_deref(), Some("3"));
+        assert_eq!(e(quote! { x }), None);
+        // one negative literal token, as the generator produces it
+        let neg = proc_macro2::Literal::i64_unsuffixed(-7);
+        assert_eq!(e(quote! { #neg }).as_deref(), Some("-7"));
+        let big = proc_macro2::Literal::i128_unsuffixed(-170141183460469231731687303715884105728);
+        assert_eq!(e(quote! { #big }).as_deref(), Some("-170141183460469231731687303715884105728"));
+        // None-delimited group
+        let g = proc_macro2::Group::new(Delimiter::None, quote! { 5 });
+        assert_eq!(e(quote! { #g }).as_deref(), Some("5"));
+        assert_eq!(num_json("9223372036854775807"), json!(9223372036854775807i64));
+        assert_eq!(num_json("9223372036854775808"), json!("9223372036854775808"));
+        assert_eq!(num_json("-9223372036854775809"), json!("-9223372036854775809"));
+        assert_eq!(doc_of(&syn::parse2::<syn::ItemStruct>(quote! { #[doc = " a"] #[doc = ""] #[doc = "b "] struct S; }).unwrap().attrs), "a\n\nb");
+    }
+
+    #[test]
+    fn unexpected_shapes_do_not_panic() {
+        let f: syn::File = syn::parse2(quote! {
+            pub struct Dev<I> { x: I }
+            impl<I> Dev<I> { const X: u8 = 1; pub fn foo(&mut self) {} pub fn read_all_registers(&mut self) { let reg = 1; callback(); } }
+            impl Foo {}
+            impl From<u8> for Nothing { fn from(v: u8) -> Self { loop {} } }
+            pub mod field_sets { pub struct A; impl A { pub fn new() {} pub fn g(&self) {} pub fn s(&mut self, value: u8) {} } enum Z {} fn f() {} }
+            pub enum E { A = 1 + 2, B(u8, u8) }
+            impl Default for E { fn default() -> Self { todo!() } }
+            impl From<u8> for E { fn from(v: u8) -> Self { match v { 1..=2 => Self::A, x if x > 3 => Self::B(x, x), _ => panic!() } } }
+            impl From<E> for u8 { fn from(v: E) -> Self { match v { E::A | E::B(..) => 1 } } }
+            macro_rules! m { () => {} }
+        })
+        .unwrap();
+        let (facts, warnings) = extract(&f);
+        assert!(facts["blocks"].as_array().unwrap().len() == 1);
+        assert!(!warnings.is_empty());
+    }
+}
